@@ -1617,3 +1617,62 @@ class PrepareMapEvaluationSlots(SlotKernel):
 
 
 KERNELS += [AddMapEvaluationSlot, CollectAllMapEvaluationSlots, PrepareMapEvaluationSlots]
+
+
+class MapNodeStop(MapKernel):
+    name = "map_node.cpp:map_node_stop"
+    fn_name = "map_node_stop"
+    filter = "map_node_stop"
+    property_ids = ("C14", "C10")
+    title = "map_node_stop: stopping the map node stops every started child, whatever state the map is in"
+
+    def setup(self, I):
+        ctx = I.ctx
+        self.base(I)
+        g = self.g
+        ctx.store[(g.oid, "removed_all")] = z3.IntVal(0)
+        st = self.st
+        for nm in ("primed", "refresh_all_bindings", "selective_repoint_bindings"):
+            ctx.store[(st.oid, nm)] = z3.Bool(nm + "0")
+        ctx.store[(st.oid, "resume_position_plus_one")] = z3.Int("resume0")
+        for nm in ("membership_changed_keys", "repoint_modified_keys", "evaluation_slots", "child_schedule_queue"):
+            ctx.store[(st.oid, nm)] = Wild(name=nm)
+        st.m_unsubscribe_keys_noexcept = lambda I_2, a, n: VOID
+        cx = Obj("MapNodeContext", "context")
+        mv = Obj("MapNodeView", "map_view")
+        mv.m_internal_context = lambda I_2, a, n: Ptr(cx)
+        mv.m_internal_storage = lambda I_2, a, n: Ptr(st)
+        self.view.m_as = lambda I_2, a, n: mv
+        return None, {"view": self.view, "evaluation_time": self.T}
+
+    def f_cast(self, I, args, n):
+        return I.ctx.rv(args[0])
+
+    def f_remove_all_entries(self, I, args, n):
+        """contract proved by RemoveAllEntries: every started child is stopped exactly once (the first failure is rethrown
+        after all of them had their attempt)"""
+        ctx = I.ctx
+        a = [ctx.rv(x) for x in args]
+        ctx.oblige("callee-pre.remove_all_entries:on-this-node's-storage,without-publishing-erases",
+                   z3.BoolVal(a[2] is self.st and isinstance(a[3], Ptr) and a[3].target is None), kind="callee-pre")
+        ctx.write(Loc((self.g.oid, "removed_all")), self.gg(ctx, "removed_all") + 1)
+        ctx.write(Loc((self.g.oid, "started")), z3.K(I_, z3.BoolVal(False)))
+        if ctx.choose(2, "remove_all_entries outcome") == 1:
+            I.throw_from_callee("child.stop")
+        return VOID
+
+    def post(self, I, ret):
+        ctx = I.ctx
+        ctx.oblige("ensures.every-started-child-stopped[C14 dynamically created children are stopped no later than the return of the "
+                   "run, whatever state the map is in]", z3.And(self.gg(ctx, "removed_all") == 1,
+                                                                 z3.ForAll([qs], z3.Not(self.gg(ctx, "started")[qs]))), kind="post-normal")
+        ctx.oblige("ensures.evaluation-state-reset", z3.And(z3.Not(ctx.store[(self.st.oid, "primed")]),
+                                                            ctx.store[(self.st.oid, "resume_position_plus_one")] == 0), kind="post-normal")
+
+    def post_exc(self, I, exc):
+        ctx = I.ctx
+        ctx.oblige("raises.only-a-child-stop-failure,after-every-child-had-its-attempt[C14]", z3.And(
+            z3.BoolVal(exc.origin == "child.stop"), self.gg(ctx, "removed_all") == 1), kind="post-exceptional")
+
+
+KERNELS.append(MapNodeStop)
